@@ -142,10 +142,12 @@ class SPIDeviceInterface(Elaboratable):
                     m.d.sync += current_rx.eq(Cat(current_rx[1:], self.spi.sdi))
 
                 # If we're just completing a word, handle I/O.
+                # (Start counting the next word's bits from zero: word_size need not be a power of two.)
                 with m.If(bit_count + 1 == self.word_size):
                     m.d.sync += [
                         self.word_accepted .eq(1),
-                        current_tx         .eq(self.word_out)
+                        current_tx         .eq(self.word_out),
+                        bit_count          .eq(0)
                     ]
 
 
